@@ -83,24 +83,31 @@ func uniq(xs ...int) []int {
 }
 
 // opsFor lists the operations applied to a receiver of (reported) length n.
-func opsFor(n int, grid []int) []op {
+// With elvish, the same requests with non-negative bounds are also made through vals.Index / vals.Assoc.
+func opsFor(n int, grid []int, elvish bool) []op {
 	ops := []op{{Op: "Pop"}, {Op: "Conj", X: 7}, {Op: "Len"}, {Op: "Iterate"}}
 	for _, i := range grid {
 		ops = append(ops, op{Op: "Index", I: i}, op{Op: "Assoc", I: i, X: 7})
+		if elvish && i >= 0 {
+			ops = append(ops, op{Op: "EIndex", I: i}, op{Op: "EAssoc", I: i, X: 7})
+		}
 		for _, j := range grid {
 			ops = append(ops, op{Op: "Sub", I: i, J: j})
+			if elvish && i >= 0 && j >= 0 {
+				ops = append(ops, op{Op: "ESlice", I: i, J: j})
+			}
 		}
 	}
 	return ops
 }
 
 // casesAt records all cases for the whole vector v (length n) and for slices / slices of slices of it.
-func casesAt(v vector.Vector, rc recipe, level int) []vcase {
+func casesAt(v vector.Vector, rc recipe, level int, elvish bool) []vcase {
 	n := v.Len()
 	var out []vcase
 	apply := func(recv vector.Vector, rc recipe, kind string, grid []int) {
 		parent := byIndex(recv)
-		for _, o := range opsFor(recv.Len(), grid) {
+		for _, o := range opsFor(recv.Len(), grid, elvish && (kind == "whole" || level == 2)) {
 			out = append(out, recordWith(recv, parent, rc, kind, o))
 		}
 	}
@@ -173,8 +180,8 @@ func sweep(c *lib.Ctx, dir string) error {
 		per := make([][]vcase, hi-lo+1)
 		lib.Parallel(hi-lo+1, 8, func(k int) {
 			n := lo + k
-			cs := casesAt(up[n], recipe{N: n, Pass: "up"}, c.Pick(1, 2))
-			cs = append(cs, casesAt(down[n], recipe{N: n, Pass: "down", Top: L}, c.Pick(0, 1))...)
+			cs := casesAt(up[n], recipe{N: n, Pass: "up"}, c.Pick(1, 2), true)
+			cs = append(cs, casesAt(down[n], recipe{N: n, Pass: "down", Top: L}, c.Pick(0, 1), c.Thorough())...)
 			per[k] = cs
 		})
 		var cases []vcase
